@@ -45,7 +45,9 @@ META = {
                   "ORT (top graph and Loop bodies; If branches and function bodies are not observable this way), over "
                   "a few symbol bindings – sampled, not proved. annotConsistent_sound covers only the small vocabulary "
                   "(shape-preserving unary ops, Add/Sub/Mul/Div/Max/Min) and assumes ONNX semantics at those nodes. Trusted: "
-                  "translators, ORT as the runtime, Lean's interpreter for per-model runs.",
+                  "translators, ORT as the runtime, Lean's interpreter for per-model runs. Two genuine defects of the unchanged "
+                  "tree are listed in known_findings.d/C08.json (shared dynamic-dim sentinel symbol; DOUBLE declared for a "
+                  "FLOAT ReduceSum result).",
     "design_ref": "DESIGN.md §3 C08",
 }
 
